@@ -37,6 +37,8 @@ impl<'a> Log<'a> {
     }
 }
 
+static DEEP: std::sync::atomic::AtomicBool = std::sync::atomic::AtomicBool::new(false);
+
 fn operands(p: &BigUint) -> Vec<BigUint> {
     let one = BigUint::from(1u8);
     let two = BigUint::from(2u8);
@@ -60,6 +62,24 @@ fn operands(p: &BigUint) -> Vec<BigUint> {
         BigUint::from(3u8),
         BigUint::from(5u8),
     ];
+    if DEEP.load(std::sync::atomic::Ordering::Relaxed) {
+        // thorough tier: every 2^(64k) +- 1 and p - 2^(64k) below the modulus, all-ones limb patterns, p - 3 .. p - 9, and a
+        // stream of pseudo-random elements
+        for k in 1..=6u32 {
+            for d in [&one << (64 * k), (&one << (64 * k)) - &one, (&one << (64 * k)) + &one] {
+                v.push(&d % p);
+                v.push((p - (&d % p)) % p);
+            }
+        }
+        for d in 3u8..=9 {
+            v.push(p - BigUint::from(d));
+        }
+        let mut x = BigUint::from(0x9e3779b97f4a7c15u64);
+        for i in 0..48u32 {
+            x = (&x * &x + BigUint::from(i) + (&one << (61 * (i % 7)))) % p;
+            v.push(x.clone());
+        }
+    }
     v.sort();
     v.dedup();
     v
@@ -280,6 +300,7 @@ pub fn main(args: &[String]) -> i32 {
     let mut out = util::create(&args[0]);
     let which = args.get(1).map(|s| s.as_str()).unwrap_or("all").to_string();
     let deep = args.get(2).map(|s| s == "deep").unwrap_or(false);
+    DEEP.store(deep, std::sync::atomic::Ordering::Relaxed);
     writeln!(out, "{}", json!({"ev":"header","prop":"C10"})).unwrap();
     let all = which == "all";
     macro_rules! cf {
